@@ -5,6 +5,7 @@ type lookup struct {
 	indexToKey []string
 	data       []Value
 	cap        int
+	verif      verifGlobals
 }
 
 func newLookup() *lookup {
